@@ -2,7 +2,7 @@
     unit, list, prod, sumbool and sumor map to the OCaml types; N, positive, Z and nat stay the
     extracted inductive types. No [Extract Constant], no further [Extract Inductive]. *)
 From Coq Require Import Extraction ExtrOcamlBasic.
-From AnemoVerif Require Import Base Utf8 Bincode Status Wire SizeLimit Timeout AuthLayer Inflight Gcra.
+From AnemoVerif Require Import Base Utf8 Bincode Status Wire SizeLimit Timeout AuthLayer Inflight Gcra Router Codegen.
 
 Extraction Language OCaml.
 
@@ -19,4 +19,9 @@ Separate Extraction
   Timeout.layer_outcome Timeout.rpc_outcome Timeout.timeout_key
   AuthLayer.run AuthLayer.allowed_peers AuthLayer.invocations
   Inflight.step Inflight.gauge Inflight.run
-  Gcra.rate_call Gcra.check_key Gcra.admitted_in.
+  Gcra.rate_call Gcra.check_key Gcra.admitted_in
+  Router.route Router.add_rpc_service Router.route_layer Router.merge Router.dispatch
+  Router.parse_pattern Router.build Router.compatible
+  Codegen.client_path Codegen.server_path Codegen.service_name Codegen.server_select
+  Codegen.status_into_response Codegen.status_from_response Codegen.typed_call
+  Codegen.server_unary Codegen.client_unary.
